@@ -273,6 +273,12 @@ structure ClientOutcome (α : Type) where
   store : Store
   trace : List Event
 
+/-- `AuthenticationExtensionsClientInputs::zip_contents`: an extensions object with no member is no object -/
+def zipContents (ext : Option ExtIn) : Option ExtIn :=
+  match ext with
+  | some e => if e.credProps.isSome || e.prf.isSome || e.prfAlreadyHashed.isSome then some e else none
+  | none => none
+
 /-- `Client::register` -/
 def register (v : RpId.Verifier) (cfg : Cfg) (u : UvCfg) (s : Store) (dr : Draws)
     (origin : RpId.Origin) (originStr : String) (req : RegisterReq) (mode : ClientDataMode) : ClientOutcome RegisterResp :=
@@ -288,10 +294,7 @@ def register (v : RpId.Verifier) (cfg : Cfg) (u : UvCfg) (s : Store) (dr : Draws
   | .ok rp =>
     let json := clientDataJson "webauthn.create" req.challenge originStr mode
     let hash := clientDataHash json mode
-    -- `zip_contents`: an extensions object with no member is no object
-    let ext := match req.ext with
-      | some e => if e.credProps.isSome || e.prf.isSome || e.prfAlreadyHashed.isSome then some e else none
-      | none => none
+    let ext := zipContents req.ext
     match registrationPrfInput ext prfSupported false with
     | .error e => ⟨.error e, s, ev0⟩
     | .ok ctapExt =>
